@@ -173,6 +173,13 @@ func runC07Adv(r *Run, seed int64, c c07Adv) {
 				afterOpen = false
 				return fmt.Errorf("injected: height lookup failed")
 			}
+		case "label-fails-after-broadcast":
+			if strings.HasSuffix(op, ".open") {
+				afterOpen = true
+			} else if afterOpen && strings.HasSuffix(op, ".label") {
+				afterOpen = false
+				return fmt.Errorf("injected: wallet labelling call failed")
+			}
 		case "refund-broadcast-fails-5x":
 			if strings.HasSuffix(op, ".csv") && nCsvFail < 5 {
 				nCsvFail++
@@ -314,7 +321,7 @@ func TestC07(t *testing.T) {
 	// (ii)
 	var adv []c07Adv
 	behaves := []string{"silence", "cancel", "cancel-twice", "coop-wrong-key", "coop-malformed-key", "coop-short-key", "coop-zero-key", "invalid-message", "cancel-then-coop-wrong-key", "coop-wrong-key-after-csv", "good-coop"}
-	faults := []string{"none", "height-lookup-after-broadcast", "refund-broadcast-fails-5x", "announcement-send-fails"}
+	faults := []string{"none", "height-lookup-after-broadcast", "label-fails-after-broadcast", "refund-broadcast-fails-5x", "announcement-send-fails"}
 	for _, ch := range []string{"btc", "lbtc"} {
 		for _, ty := range []string{"in", "out"} {
 			for bi, b := range behaves {
